@@ -96,7 +96,7 @@ impl Prop for C04 {
         "fault_enumeration"
     }
     fn rule(&self) -> String {
-        "run = seeded encrypted archive (E or C+E) with >= 3 encryption chunks (the first 6 runs - thorough: 60 -: production constants, encryption only, one content block of 6..10 MiB, i.e. 48..80 chunks, faults at six chunk indices spread over the stream); on encrypt-only runs the first file's content is the adversarial block-lookalike class: a well-formed FileStart(\"intruder\")/content/EndOfFile(correct hash)/EndOfArchiveData sequence planted so that it begins exactly at chunk boundaries. Stored-byte faults for EVERY chunk index i (first/last/seeded byte of the payload and of the tag flipped or substituted, truncation inside the payload, at the tag start and inside the tag, chunk duplicated, deleted, swapped with or replaced by a neighbour or an earlier chunk, replaced by the same-index chunk of a second archive with its own key). One run in three damages TWO chunks i < j of one image as well; one scaled run in four repairs through a source that returns short reads; one in three has 2-4 recipients. Each altered image is repaired in authenticated (default) and unauthenticated mode. Oracle: authenticated result has only original names, every file is a prefix of the original, and holds no more than what the chunks verified contiguously from the start carry - computed (a) by the independent format model from the verified plaintext prefix (encrypt-only) and (b) metamorphically by repairing the image cut at the start of the first failing chunk; the authenticated result is a per-file prefix of the unauthenticated one. evaluations = altered images judged; distinct_nontrivial = distinct (variant, layers, fault kind, first failing chunk class, payload/tag, lookalike?, outcome) signatures.".into()
+        "run = seeded encrypted archive (E or C+E) with >= 3 encryption chunks (the first 6 runs - thorough: 60 -: production constants, encryption only, one content block of 6..10 MiB, i.e. 48..80 chunks, faults at six chunk indices spread over the stream); on encrypt-only runs the first file's content is the adversarial block-lookalike class: a well-formed FileStart(\"intruder\")/content/EndOfFile(correct hash)/EndOfArchiveData sequence planted so that it begins exactly at chunk boundaries. Stored-byte faults for EVERY chunk index i (first/last/seeded byte of the payload and of the tag flipped or substituted, truncation inside the payload, at the tag start and inside the tag, chunk duplicated, deleted, swapped with or replaced by a neighbour or an earlier chunk, replaced by the same-index chunk of a second archive with its own key). One run in three damages TWO chunks i < j of one image as well; one scaled run in four repairs through a source that returns short reads - half of those also report ErrorKind::Interrupted now and then, in which case only the safety clauses (names, prefix of the original, nothing beyond the verified chunks) are judged -; one in three has 2-4 recipients. Each altered image is repaired in authenticated (default) and unauthenticated mode. Oracle: authenticated result has only original names, every file is a prefix of the original, and holds no more than what the chunks verified contiguously from the start carry - computed (a) by the independent format model from the verified plaintext prefix (encrypt-only) and (b) metamorphically by repairing the image cut at the start of the first failing chunk; the authenticated result is a per-file prefix of the unauthenticated one. evaluations = altered images judged; distinct_nontrivial = distinct (variant, layers, fault kind, first failing chunk class, payload/tag, lookalike?, outcome) signatures.".into()
     }
     fn assumptions(&self) -> Vec<String> {
         vec![
@@ -198,6 +198,12 @@ impl Prop for C04 {
             // arrive in different reads, a read may end inside the tag)
             let mut r = ReadCfg::for_cfg(&case.cfg);
             r.sched = Sched::make(&mut rng, false);
+            if rng.chance(1, 2) {
+                // ... and that reports ErrorKind::Interrupted now and then (a legal outcome of Read::read): repair may then
+                // stop early, so only the safety clauses are judged on these runs
+                r.sched = Sched::Intr { seed: rng.u64() | 1, max: *rng.pick(&[1u64, 7, 64, 1 << 20]), intr_den: *rng.pick(&[3u64, 10, 40]) };
+                case.params.insert("src_interrupts".into(), 1);
+            }
             case.rcfg = Some(r);
             case.params.insert("max_chunks".into(), 6);
         }
@@ -251,6 +257,15 @@ impl Prop for C04 {
             let files = read_all(s, &Rc::new(out.out_image), &plain)?;
             Ok((files, st.stop))
         };
+        let interrupts = case.param("src_interrupts", 0) == 1;
+        struct Reset;
+        impl Drop for Reset {
+            fn drop(&mut self) {
+                seams::set_source_interrupts(false);
+            }
+        }
+        let _reset = Reset;
+        seams::set_source_interrupts(interrupts);
         for f in &faults {
             let altered = apply_fault(&image, f, hlen, chunk, Some(&other));
             if altered == image || altered.len() < hlen {
@@ -297,7 +312,7 @@ impl Prop for C04 {
                 }
             }
             // (b) metamorphic: nothing beyond the repair of the image cut at the first failing chunk
-            if !all_ok {
+            if !all_ok && !interrupts {
                 let cut_at = hlen + bad * (chunk + 16);
                 if let Ok(cutrep) = repair_files(&altered[..cut_at.min(altered.len())], true) {
                     for (name, bytes) in &auth.0 {
@@ -309,7 +324,8 @@ impl Prop for C04 {
                 }
             }
             // unauthenticated mode returns at least as much; authenticated result is a prefix of it
-            match repair_files(&altered, false) {
+            // (not judged under an interrupting source: either repair may stop early at a different place)
+            match if interrupts { Err(String::new()) } else { repair_files(&altered, false) } {
                 Ok(un) => {
                     for (name, bytes) in &auth.0 {
                         let u = un.0.get(name).cloned().unwrap_or_default();
@@ -318,6 +334,7 @@ impl Prop for C04 {
                         }
                     }
                 }
+                Err(_) if interrupts => {}
                 Err(_) => ctx.probe("unauth-repair-failed (C02/C08 clauses)"),
             }
             let target = match f {
